@@ -98,6 +98,18 @@ def C(v):
     return ("c", v, None)
 
 
+def proj_of(e, p):
+    """Value expression for the projection p of e (same shapes the interpreter builds)."""
+    k = e[0]
+    if k == "p":
+        return ("p", e[1], tuple(e[2]) + tuple(p))
+    if k == "l":
+        return ("l", e[1], e[2], tuple(e[3]) + tuple(p))
+    if k == "proj":
+        return ("proj", e[1], tuple(e[2]) + tuple(p))
+    return ("proj", e, tuple(p))
+
+
 def is_c(e, v=None):
     return isinstance(e, tuple) and e[0] == "c" and isinstance(e[1], int) and (v is None or e[1] == v)
 
@@ -166,6 +178,8 @@ class Ctx:
         self.open_loops = False     # accept loops without a recognisable trip count (body recorded once)
         self.track_fields = False   # track stores to fields of by-reference parameters (sink internals)
         self.veclen_keys = set()
+        self.merge_helpers = True   # inline private helpers that write to a sink passed to them
+        self.option_algebra = False  # model Option / bool combinators as case trees (then_some, or, filter, map_or, ...)
         self.wtypes = {}            # site -> operand type of write_msbs / write_lsbs / write_twoc events
         self.sink_internal = False  # analyse BitSink impls themselves: sink methods are inlined, not turned into events
         self.fields_written = set()
@@ -463,7 +477,8 @@ class Interp:
         full = fn.get("res_full") or fn.get("full") or fn["def"]
         trait = fn.get("trait")
         if self.ctx.log_calls and re.search(self.ctx.log_calls, full):
-            self.ctx.calls.append((full, tuple(args), site, self.body.id))
+            self.ctx.calls.append((full, tuple(args), site, self.body.id,
+                                   list(self.assume) if self.ctx.collect_asserts else None))
         # ---- sink operations (trait methods, on any receiver)
         if trait == BITSINK and not (self.ctx.sink_internal and (fn.get("res") in self.facts.bodies)):
             g = fn.get("gargs") or []
@@ -509,7 +524,7 @@ class Interp:
             ev.append(("extra", args[1], fn["def"].rsplit("::", 1)[0], args[0], site))
             return ("call", full, tuple(args), ())
         # ---- vectors
-        if self.ctx.track_fields and re.search(r"Vec::<", full) and args:
+        if self.ctx.track_fields and re.search(r"Vec::<|^<std::vec::Vec<", full) and args:
             r0 = strip_casts(args[0])
             if isinstance(r0, tuple) and r0 and r0[0] == "p" and r0[2] and all(x.startswith(".") for x in r0[2]):
                 base = ("p", r0[1], ())
@@ -524,6 +539,12 @@ class Interp:
                     new = args[1]
                 elif name == "clear":
                     new = C(0)
+                elif name == "extend" and len(args) == 2 and isinstance(args[1], tuple) and args[1] and args[1][0] == "call" \
+                        and re.search(r"Iterator>?::take$|::take$", args[1][1]) and len(args[1][2]) == 2 \
+                        and isinstance(args[1][2][0], tuple) and args[1][2][0] and args[1][2][0][0] == "call" \
+                        and re.search(r"iter::repeat(::<.*>)?$|iter::repeat_n", args[1][2][0][1]):
+                    # extend(repeat(x).take(n)): n more elements
+                    new = mk_bin("Add", cur, args[1][2][1])
                 elif name in ("truncate", "pop", "insert", "append", "extend", "resize_with", "drain", "remove", "retain",
                               "split_off", "dedup", "swap_remove", "set_len"):
                     new = ("?", "vec length after %s" % name)
@@ -569,6 +590,10 @@ class Interp:
             pe = ("call", fn["def"], tuple(args[1:]) if False else tuple(args), ())
             ev.append(("apply", pe, site, aid))
             return ("applied", aid, pe)
+        if self.ctx.option_algebra:
+            v = self.option_op(fn, name, full, args, ev, site)
+            if v is not None:
+                return v
         if name == "and_then" and re.search(r"^std::(result::Result|option::Option)::<", full) and len(args) == 2 \
                 and isinstance(strip_casts(args[1]), tuple) and strip_casts(args[1])[0] == "closure":
             # r.and_then(f): on the Ok path the closure runs with r's payload; the result is Ok iff both are
@@ -605,18 +630,101 @@ class Interp:
         # ---- pass-through
         if fn_is(fn, PASS) and args:
             return args[0]
+        # ---- internal iteration: for_each / try_for_each / fold over a collection == the equivalent `for` loop
+        if trait == "std::iter::Iterator" and name in ("for_each", "try_for_each") and len(args) == 2 \
+                and isinstance(strip_casts(args[1]), tuple) and strip_casts(args[1])[0] == "closure" and not self.ctx.reader:
+            lid = self.ctx.loop_id()
+            desc = self.iter_desc(args[0], lid)
+            pev = []
+            na = len(self.assume)
+            self.assume.append(("range", ("idx", lid), desc[2], desc[3]) if desc[0] == "range" else ("elemof", ("elem", lid), desc[2]))
+            self.inline_closure(args[1], [desc_var(desc)], pev, site)
+            del self.assume[na:]
+            ev.append(("loop", desc, pev))
+            if name == "try_for_each":
+                return ("agg", "std::result::Result", "Ok", (("agg", "tuple", None, ()),))
+            return ("agg", "tuple", None, ())
+        if trait == "std::iter::Iterator" and name == "fold" and len(args) == 3 \
+                and isinstance(strip_casts(args[2]), tuple) and strip_casts(args[2])[0] == "closure" and not self.ctx.reader:
+            lid = self.ctx.loop_id()
+            try:
+                desc = self.iter_desc(args[0], lid)
+                acc = ("lc", lid, "acc")
+                pev = []
+                r = self.inline_closure(args[2], [acc, desc_var(desc)], pev, site)
+                r0 = r[1] if isinstance(r, tuple) and r and r[0] == "ovf" else r
+                step = None
+                if isinstance(r0, tuple) and r0 and r0[0] == "bin" and r0[1] == "Add":
+                    is_acc = lambda e: e == acc
+                    if r0[2] == acc and not mentions(r0[3], is_acc):
+                        step = r0[3]
+                    elif r0[3] == acc and not mentions(r0[2], is_acc):
+                        step = r0[2]
+                if step is not None and not has_effect(pev):
+                    return mk_bin("Add", args[1], ("sumloop", desc, step))
+            except Undecided:
+                pass
         # ---- closures passed to an unknown combinator must not hide sink operations
         for a in args:
             if isinstance(a, tuple) and a[0] == "closure" and self.closure_touches_sink(a[1]):
                 raise Undecided("closure with sink operations passed to unmodelled %s at %s" % (full, site))
         # ---- inline small pure local functions (accessors, arithmetic helpers)
-        v = self.try_inline(fn, args)
+        v = self.try_inline(fn, args, ev)
         if v is not None:
             return v
         if self.ctx.sink_internal and fn.get("local") and (t.get("argtys") or [""])[0].startswith("&mut ") \
                 and not fn_is(fn, NOINLINE) and not (self.ctx.noinline and fn_is(fn, self.ctx.noinline)):
             raise Undecided("cannot summarise %s (called with a mutable sink at %s)" % (full, site))
         return ("call", full, tuple(args), tuple(fn.get("gargs") or ()))
+
+    # ------------------------------------------------------------------ Option algebra (ctx.option_algebra)
+    def opt_case(self, o, on_none, on_some):
+        """Case analysis of an Option value: on_none() / on_some(payload) are applied at the leaves."""
+        o0 = strip_casts(o)
+        if isinstance(o0, tuple) and o0 and o0[0] == "agg" and o0[2] == "None":
+            return on_none()
+        if isinstance(o0, tuple) and o0 and o0[0] == "agg" and o0[2] == "Some" and len(o0[3]) == 1:
+            return on_some(o0[3][0])
+        if isinstance(o0, tuple) and o0 and o0[0] == "case":
+            return ("case", o0[1], tuple((lab, self.opt_case(v, on_none, on_some)) for lab, v in o0[2]))
+        return ("case", ("discr", o0), ((0, on_none()), (1, on_some(self.proj(o0, ["@Some", ".0"])))))
+
+    def option_op(self, fn, name, full, args, ev, site):
+        NONE = ("agg", "std::option::Option", "None", ())
+        some = lambda v: ("agg", "std::option::Option", "Some", (v,))
+        is_clo = lambda x: isinstance(strip_casts(x), tuple) and strip_casts(x)[0] == "closure"
+        call = lambda clo, ps: self.inline_closure(clo, ps, ev, site, pure=True)
+        if re.search(r"^core::bool::<impl bool>::then_some$", fn["def"]) and len(args) == 2:
+            return ("case", args[0], ((0, NONE), (1, some(args[1]))))
+        if re.search(r"^core::bool::<impl bool>::then$", fn["def"]) and len(args) == 2 and is_clo(args[1]):
+            return ("case", args[0], ((0, NONE), (1, some(call(args[1], [])))))
+        if not re.search(r"^std::option::Option::<", fn["def"]):
+            return None
+        a = args
+        if name in ("as_ref", "as_mut", "as_deref", "cloned", "copied", "take") and len(a) == 1:
+            return a[0]
+        if name == "or" and len(a) == 2:
+            return self.opt_case(a[0], lambda: a[1], lambda v: some(v))
+        if name == "or_else" and len(a) == 2 and is_clo(a[1]):
+            return self.opt_case(a[0], lambda: call(a[1], []), lambda v: some(v))
+        if name == "unwrap_or" and len(a) == 2:
+            return self.opt_case(a[0], lambda: a[1], lambda v: v)
+        if name == "unwrap_or_else" and len(a) == 2 and is_clo(a[1]):
+            return self.opt_case(a[0], lambda: call(a[1], []), lambda v: v)
+        if name == "map_or" and len(a) == 3 and is_clo(a[2]):
+            return self.opt_case(a[0], lambda: a[1], lambda v: call(a[2], [v]))
+        if name == "map_or_else" and len(a) == 3 and is_clo(a[1]) and is_clo(a[2]):
+            return self.opt_case(a[0], lambda: call(a[1], []), lambda v: call(a[2], [v]))
+        if name == "map" and len(a) == 2 and is_clo(a[1]):
+            return self.opt_case(a[0], lambda: NONE, lambda v: some(call(a[1], [v])))
+        if name == "and_then" and len(a) == 2 and is_clo(a[1]):
+            return self.opt_case(a[0], lambda: NONE, lambda v: call(a[1], [v]))
+        if name == "filter" and len(a) == 2 and is_clo(a[1]):
+            return self.opt_case(a[0], lambda: NONE, lambda v: ("case", call(a[1], [v]), ((0, NONE), (1, some(v)))))
+        if name in ("is_some", "is_none") and len(a) == 1:
+            yes, no = (C(1), C(0)) if name == "is_some" else (C(0), C(1))
+            return self.opt_case(a[0], lambda: no, lambda v: yes)
+        return None
 
     def closure_touches_sink(self, cid, seen=None):
         seen = seen or set()
@@ -635,7 +743,7 @@ class Interp:
                 return True
         return False
 
-    def try_inline(self, fn, args):
+    def try_inline(self, fn, args, caller_ev=None):
         if self.depth >= 5 or not fn.get("local", True) and fn.get("res") not in self.facts.bodies:
             return None
         if fn_is(fn, NOINLINE) or (self.ctx.noinline and fn_is(fn, self.ctx.noinline)):
@@ -667,6 +775,12 @@ class Interp:
             if self.ctx.sink_internal:
                 pass
             elif has_effect(ev, ignore_push=self.ctx.collect_asserts):
+                # a private inherent helper that writes to a sink it was handed (`fn write_part(&self, sink: &mut S)`): its
+                # events are the caller's events.  Trait methods (BitRepr::write, BitSink::*) are never merged this way.
+                if caller_ev is not None and self.ctx.merge_helpers and fn.get("local") and not fn.get("trait") \
+                        and not cb.raw.get("impl_trait") and not self.ctx.reader:
+                    caller_ev.extend(ev)
+                    return sub.retval
                 del self.ctx.asserts[na:]
                 return None
             if self.ctx.collect_asserts:
@@ -835,6 +949,12 @@ class Interp:
         if isinstance(s0, tuple) and s0[0] == "discr" and isinstance(s0[1], tuple) and s0[1][0] == "branch" and val == 0:
             self.assume_ok(s0[1][1])
             return
+        # explicit `match r { Ok(..) => .., Err(e) => return Err(e) }` / `if let Err(e) = r { return .. }` on a Result that
+        # carries verification conditions: in the Ok arm (discriminant 0) they hold
+        if isinstance(s0, tuple) and s0[0] == "discr" and isinstance(s0[1], tuple) and s0[1] and val == 0 \
+                and s0[1][0] in ("allok", "okif"):
+            self.assume_ok(s0[1])
+            return
         self.assume.append(("cond", sc, val))
 
     def assume_ok(self, r):
@@ -983,7 +1103,8 @@ class Interp:
                     else:
                         self.fields[kx] = ("case", scrut, tuple(
                             (lab, v if v is not None else self.field_default(kx)) for lab, v in vals))
-            ev.append(("case", scrut, arms))
+            if any(aev for _lab, aev in arms):
+                ev.append(("case", scrut, arms))
             if join is None:
                 # every arm ended in the return block
                 self.retval = merged.get(0, ("?", "ret"))
@@ -1166,13 +1287,30 @@ class Interp:
             elif isinstance(v, tuple) and v[0] == "bin" and v[1] == "Add" and v[3] == lc \
                     and not mentions(v[2], lambda e: isinstance(e, tuple) and len(e) > 1 and e[0] == "lc" and e[1] == lid):
                 steps[l] = v[2]
+            elif isinstance(v, tuple) and v[0] == "bin" and v[1] == "Sub" and v[2] == lc and is_c(v[3]):
+                steps[l] = C(-v[3][1])
+            elif isinstance(v, tuple) and v[0] == "ovf" and isinstance(v[1], tuple) and v[1][0] == "bin" and v[1][1] == "Sub" \
+                    and v[1][2] == lc and is_c(v[1][3]):
+                steps[l] = C(-v[1][3][1])
             else:
                 steps[l] = None
         strided = None
         if desc is None:
             # while loop: cond must be `iv < bound`
             c = strip_casts(cond)
-            if not (isinstance(c, tuple) and c[0] == "bin" and c[1] == "Lt" and isinstance(c[2], tuple)
+            countdown = None
+            if isinstance(c, tuple) and c[0] == "bin":
+                # `while n > 0 { n -= 1; .. }` / `while n != 0`: n iterations
+                cd = None
+                if c[1] in ("Gt", "Ne") and isinstance(c[2], tuple) and c[2][0] == "lc" and c[2][1] == lid and is_c(c[3], 0):
+                    cd = c[2][2]
+                if c[1] in ("Lt", "Ne") and isinstance(c[3], tuple) and c[3][0] == "lc" and c[3][1] == lid and is_c(c[2], 0):
+                    cd = c[3][2]
+                if cd is not None and is_c(steps.get(cd), -1):
+                    countdown = cd
+            if countdown is not None:
+                pass
+            elif not (isinstance(c, tuple) and c[0] == "bin" and c[1] == "Lt" and isinstance(c[2], tuple)
                     and c[2][0] == "lc" and c[2][1] == lid):
                 if not (self.ctx.reader or self.ctx.open_loops):
                     raise Undecided("while loop at bb%d of %s: condition %s is not `induction variable < bound`"
@@ -1194,20 +1332,26 @@ class Interp:
                     self.env[l] = ("?", "after-loop _%d" % l)
                 self.veclen = pre_vl
                 return exit_b
-            ivl = c[2][2]
-            bound = c[3]
-            if mentions(bound, lambda e: isinstance(e, tuple) and len(e) > 1 and e[0] == "lc" and e[1] == lid):
-                raise Undecided("while loop at bb%d of %s: bound is not loop invariant" % (h, b.id))
-            st = steps.get(ivl)
-            if not is_c(st) or st[1] <= 0:
-                raise Undecided("while loop at bb%d of %s: induction step is not a positive constant" % (h, b.id))
-            lo = pre_env.get(ivl, ("?", "init"))
-            desc = ("range", lid, lo, bound)
-            if st[1] != 1:
-                strided = (ivl, st[1])
-            iv_local = ivl
+            if countdown is not None:
+                ivl = countdown
+                desc = ("range", lid, C(0), pre_env.get(ivl, ("?", "init")))
+                iv_local = ivl
+            else:
+                ivl = c[2][2]
+                bound = c[3]
+                if mentions(bound, lambda e: isinstance(e, tuple) and len(e) > 1 and e[0] == "lc" and e[1] == lid):
+                    raise Undecided("while loop at bb%d of %s: bound is not loop invariant" % (h, b.id))
+                st = steps.get(ivl)
+                if not is_c(st) or st[1] <= 0:
+                    raise Undecided("while loop at bb%d of %s: induction step is not a positive constant" % (h, b.id))
+                lo = pre_env.get(ivl, ("?", "init"))
+                desc = ("range", lid, lo, bound)
+                if st[1] != 1:
+                    strided = (ivl, st[1])
+                iv_local = ivl
         else:
             iv_local = None
+            countdown = None
 
         # fields with a constant step have the closed form init + iteration * step; steps of other fields may depend on them
         fclosed = {}
@@ -1233,7 +1377,9 @@ class Interp:
         def setup2():
             for l in carried:
                 st = steps.get(l)
-                if l == iv_local:
+                if l == iv_local and countdown is not None:
+                    self.env[l] = mk_bin("Sub", pre_env.get(l, ("?", "init")), ("idx", lid))
+                elif l == iv_local:
                     self.env[l] = ("idx", lid)
                 elif st is None:
                     self.env[l] = ("?", "loop-carried _%d" % l)
@@ -1939,9 +2085,16 @@ class Normalizer:
             if re.search(r"::count_extra_bits$", nm):
                 return nf_atom("EXTRA[%s](%s)" % (nm.rsplit("::", 1)[0], canon(e[2][0])), m8=True)
             if re.search(r"utf8like_bytesize$", nm):
-                return P({("UTF8LEN(%s)" % canon(e[2][0]),): 1})
+                return self.utf8len(e[2][0])
             return self.atom(canon(e))
         return self.atom(canon(e0))
+
+    def utf8len(self, v):
+        """UTF8LEN atom of a value; a value selected by a case is the case of the atoms."""
+        v0 = strip_casts(v)
+        if isinstance(v0, tuple) and v0 and v0[0] == "case":
+            return nf_case(canon(v0[1]), {lab: self.utf8len(x) for lab, x in v0[2]})
+        return P({("UTF8LEN(%s)" % canon(v0),): 1})
 
     def len_nf(self, x):
         x = strip_casts(x)
@@ -1952,7 +2105,7 @@ class Normalizer:
                 return nf_div8(nf_ru8(self.marks[x[1]]))
             if x[0] == "okval" and isinstance(x[1], tuple) and x[1][0] == "call" \
                     and re.search(r"encode_to_utf8like$", x[1][1]):
-                return P({("UTF8LEN(%s)" % canon(x[1][2][0]),): 1})
+                return self.utf8len(x[1][2][0])
             if x[0] == "collect":
                 it = x[1]
                 while isinstance(it, tuple) and it[0] in ("map",):
